@@ -29,6 +29,8 @@
 EXTENDS LiskBFT, Json, SequencesExt
 
 CONSTANTS Win, InitW, InitPCT, Now, MaxBlocks, MaxHeight, MaxSteps, MaxRestart, DumpEvery,
+          ParamChoices, \* sequence of [pcT, certT, w, gens] a block may switch to (validator-set change decided by the application)
+          MaxChg,       \* bound on the number of blocks carrying such a change
           Byz,          \* Byzantine validators (no node of their own: they forge anywhere, equivocate, and announce any of their blocks)
           MaxByz,       \* bound on the number of Byzantine blocks
           SlotSpan,     \* a forger uses one of the next SlotSpan slots (N: its next slot; 2N: it may skip a round)
@@ -38,24 +40,32 @@ VARIABLES blocks, tip, fin, recv, banned, maxGen, lastSlot, script
 vars == <<blocks, tip, fin, recv, banned, maxGen, lastSlot, script>>
 
 Nodes == Validators \ Byz          \* honest validators, one node each
-N == NVal
-Gens == [i \in 1..N |-> i]
-GenOfSlot(s) == Gens[(s % N) + 1]
+Gens == [i \in 1..NVal |-> i]
+\* the generator of a slot on a branch: the generator list in force at that height (LiskBFT gkeys)
+GenAt(votes, h, slot) == LET g == ParamsAt(votes.gkeys, h).gens IN g[(slot % Len(g)) + 1]
+\* number of BFT validators a node sees at its tip (createSyncContext: BFT parameters of tip height + 1)
+ActiveAt(votes, h) == {v \in Validators : ParamsAt(votes.params, h).w[v] > 0}
+NSync(last) == Cardinality(ActiveAt(last.votes, last.h + 1))
 
 Genesis ==
   LET v0 == GenesisVotes(0, Win)
       v1 == SetGenKeys(SetParams(v0, InitPCT, InitPCT, InitW), Gens)
-  IN [id |-> <<>>, h |-> 0, gen |-> 0, mhg |-> 0, mhp |-> 0, slot |-> 0, votes |-> v1]
+  IN [id |-> <<>>, h |-> 0, gen |-> 0, mhg |-> 0, mhp |-> 0, slot |-> 0, chg |-> 0, votes |-> v1]
 
 Blk(id) == CHOOSE b \in blocks : b.id = id
 ParentId(b) == SubSeq(b.id, 1, b.h - 1)
 Anc(id, k) == SubSeq(id, 1, k)                 \* id of the ancestor at height k
 Hdr(b) == [h |-> b.h, gen |-> b.gen, mhg |-> b.mhg, mhp |-> b.mhp, acH |-> 0, acNonEmpty |-> FALSE]
 
-MkBlock(p, g, mhg, s) ==
+MkBlock(p, g, mhg, s, chg) ==
   LET hdr == [h |-> p.h + 1, gen |-> g, mhg |-> mhg, mhp |-> p.votes.mhpv, acH |-> 0, acNonEmpty |-> FALSE]
-  IN [id |-> Append(p.id, <<g, mhg, s>>), h |-> hdr.h, gen |-> g, mhg |-> mhg, mhp |-> hdr.mhp, slot |-> s,
-      votes |-> Apply(p.votes, hdr)]
+      v1 == Apply(p.votes, hdr)
+      v2 == IF chg = 0 THEN v1
+            ELSE SetGenKeys(SetParams(v1, ParamChoices[chg].pcT, ParamChoices[chg].certT, ParamChoices[chg].w), ParamChoices[chg].gens)
+  IN [id |-> Append(p.id, <<g, mhg, s, chg>>), h |-> hdr.h, gen |-> g, mhg |-> mhg, mhp |-> hdr.mhp, slot |-> s, chg |-> chg,
+      votes |-> v2]
+NChg == Cardinality({b \in blocks : b.chg # 0})
+ChgOK(c) == c = 0 \/ (c \in 1..Len(ParamChoices) /\ NChg < MaxChg)
 
 Obs(n, tp, fn, bn) ==
   LET b == CHOOSE x \in blocks' : x.id = tp[n] IN
@@ -77,8 +87,10 @@ Forge(n) ==
   /\ LET p == Blk(tip[n]) IN
      /\ p.h < MaxHeight
      /\ \E s \in (Max2(p.slot, lastSlot[n]) + 1)..Min2(Now, Max2(p.slot, lastSlot[n]) + SlotSpan) :
-          /\ GenOfSlot(s) = n
-          /\ LET b == MkBlock(p, n, maxGen[n], s) IN
+          /\ GenAt(p.votes, p.h + 1, s) = n
+          /\ \E chg \in 0..Len(ParamChoices) :
+             LET b == MkBlock(p, n, maxGen[n], s, chg) IN
+             /\ ChgOK(chg)
              /\ ~ContraChain(p.votes, Hdr(b))          \* otherwise its own validation rejects the block: no step
              /\ blocks' = blocks \cup {b}
              /\ tip' = [tip EXCEPT ![n] = b.id]
@@ -87,7 +99,7 @@ Forge(n) ==
              /\ maxGen' = [maxGen EXCEPT ![n] = Max2(@, b.h)]
              /\ lastSlot' = [lastSlot EXCEPT ![n] = s]
              /\ UNCHANGED banned
-             /\ script' = Append(script, [op |-> "forge", node |-> n, slot |-> s, mhg |-> maxGen[n], branch |-> "valid",
+             /\ script' = Append(script, [op |-> "forge", node |-> n, slot |-> s, mhg |-> maxGen[n], chg |-> chg, branch |-> "valid",
                                           obs |-> Obs(n, tip', fin', banned')])
 
 (* ------------------------------ fork choice ----------------------------- *)
@@ -108,12 +120,14 @@ RECURSIVE LcaH(_, _, _)
 LcaH(a, b, k) == IF k < Len(a) /\ k < Len(b) /\ a[k + 1] = b[k + 1] THEN LcaH(a, b, k + 1) ELSE k
 Lca(a, b) == LcaH(a, b, 0)
 
-\* fast_sync.go: the node offers the ids of its last 2N-1 heights; the peer answers with the highest one it has
-SampledHeights(last) == {x \in 0..last.h : x + (2 * N - 2) >= last.h}
+\* fast_sync.go: the node offers the ids of its last 2N-1 heights; the peer answers with the highest one it has.
+\* N is the number of BFT validators at the node's tip; fast sync needs the offered block's generator among them.
+SampledHeights(last) == {x \in 0..last.h : x + (2 * NSync(last) - 2) >= last.h}
 SyncOutcome(n, last, b) ==
   LET ca == Lca(last.id, b.id)
+      N == NSync(last)
       diff == IF b.h >= last.h THEN b.h - last.h ELSE last.h - b.h IN
-  IF diff > 2 * N THEN "blocksync"
+  IF diff > 2 * N \/ b.gen \notin ActiveAt(last.votes, last.h + 1) THEN "blocksync"    \* not a fast sync: outside this model
   ELSE IF ca \notin SampledHeights(last) THEN "ban"            \* no common block among the sampled heights
   ELSE IF ca < fin[n] THEN "ban"
   ELSE IF last.h - ca > 2 * N \/ b.h - ca > 2 * N THEN "error"
@@ -166,8 +180,8 @@ ByzForge(v) ==
   /\ \E p \in blocks : \E mhg \in {0, p.h + 1} \cup {x.h : x \in {y \in blocks : y.gen = v}} :
        /\ p.h < MaxHeight
        /\ \E s \in (p.slot + 1)..Min2(Now, p.slot + SlotSpan) :
-            /\ GenOfSlot(s) = v
-            /\ LET b == MkBlock(p, v, mhg, s) IN
+            /\ GenAt(p.votes, p.h + 1, s) = v
+            /\ LET b == MkBlock(p, v, mhg, s, 0) IN
                /\ b \notin blocks
                /\ ~ContraChain(p.votes, Hdr(b))
                /\ blocks' = blocks \cup {b}
@@ -202,7 +216,7 @@ FinalizedIrreversible == [][\A n \in Nodes : Anc(tip'[n], fin[n]) = Anc(tip[n], 
 \* C07/C15 link: protocol-following validators never sign contradicting headers, at most one block per slot
 OwnHeaders(v) == {b \in blocks : b.gen = v /\ b.h > 0}
 HonestNoContra == \A v \in Nodes : \A a, b \in OwnHeaders(v) : a # b => ~Contra(Hdr(a), Hdr(b))
-OneBlockPerSlot == \A a, b \in blocks : (a.h > 0 /\ b.h > 0 /\ a.slot = b.slot /\ a.gen \in Nodes) => a = b
+OneBlockPerSlot == \A a, b \in blocks : (a.h > 0 /\ b.h > 0 /\ a.slot = b.slot /\ a.gen = b.gen /\ a.gen \in Nodes) => a = b
 \* fork choice only ever moves a node to a chain that is not worse (LIP-0014 order on (maxHeightPrevoted, height))
 NeverWorse == [][\A n \in Nodes : LET a == Blk(tip[n]) b == CHOOSE x \in blocks' : x.id = tip'[n] IN
                      b.mhp > a.mhp \/ (b.mhp = a.mhp /\ b.h >= a.h)]_vars
